@@ -62,6 +62,12 @@ class ClassRef:
     def __init__(self, cls: ClassInfo) -> None:
         self.cls = cls
 
+    def __eq__(self, other: object) -> bool:  # one class, one object: references made at different places are the same class
+        return isinstance(other, ClassRef) and other.cls is self.cls
+
+    def __hash__(self) -> int:
+        return hash(self.cls.qualname)
+
     def __repr__(self) -> str:
         return f"<class {self.cls.qualname}>"
 
@@ -772,6 +778,10 @@ class Interp:
             a = NATIVE_TYPES.get(a.name.split(".")[-1], a) if isinstance(a, ExtRef) and a.name.startswith("builtins.") else a
             b = NATIVE_TYPES.get(b.name.split(".")[-1], b) if isinstance(b, ExtRef) and b.name.startswith("builtins.") else b
         if isinstance(op, ast.Is):
+            if isinstance(a, ClassRef) and isinstance(b, ClassRef):
+                return a.cls is b.cls  # a class has one object, however many references the evaluator made to it
+            if isinstance(a, ExtRef) and isinstance(b, ExtRef):
+                return a.name == b.name
             return a is b or (isinstance(a, Sym) and isinstance(b, Sym) and a == b) or (
                 isinstance(a, (bool, type(None))) and isinstance(b, (bool, type(None))) and a is b)
         if isinstance(op, ast.IsNot):
